@@ -257,4 +257,32 @@ def implicitName (history : List Nat) (rel : Nat) : String :=
 /-- The suggested fix: name the binding after the offset inside its own file. -/
 def implicitPosFixed (_history : List Nat) (rel : Nat) : Nat := rel
 
+/-! ## 4. Collecting the errors of concurrently running macro expansions
+
+vm/src/macros.rs `MacroExpander::expand` (lines 472-523): the expansions of one module run
+concurrently in a `FuturesUnordered`; each future is tagged with its *source index* before it
+is put into the unordered set (`.enumerate().map(|(index, future)| future.map(move |x| (index,
+x)))`, 495-499); results arrive in completion order, failures are pushed as `(index, error)`
+(505) and finally `unordered_errors.sort_by_key(|&(index, _)| index)` (514) — a stable sort. -/
+
+/-- The futures as they are put into the `FuturesUnordered`: result (`none` = the expansion
+    succeeded) paired with its source index. -/
+def tagTasks {ε : Type} (results : List (Option ε)) : List (Option ε × Nat) := results.zipIdx
+
+/-- `unordered_errors` after the `while let Some(..) = stream.next().await` loop, for the
+    arrival order `arrived`. -/
+def collectErrors {ε : Type} (arrived : List (Option ε × Nat)) : List (Nat × ε) :=
+  arrived.filterMap (fun p => p.1.map (fun e => (p.2, e)))
+
+def leIdx {ε : Type} (a b : Nat × ε) : Bool := decide (a.1 ≤ b.1)
+
+/-- macros.rs:514-516: sort by index, drop the index. -/
+def reportErrors {ε : Type} (arrived : List (Option ε × Nat)) : List ε :=
+  ((collectErrors arrived).mergeSort leIdx).map (fun p => p.2)
+
+/-- The variant that numbers the results *after* collection (`.collect::<FuturesUnordered<_>>()
+    .enumerate()`): the index is the completion rank, `arrived` carries no tags. -/
+def reportErrorsLateNumbering {ε : Type} (arrived : List (Option ε)) : List ε :=
+  reportErrors arrived.zipIdx
+
 end GluonModel.Determinism
